@@ -263,6 +263,14 @@ def run_property(pid, tier, only=None, jobs=None, write_evidence=True, cube_filt
       pending.append((ob, None, 0, pool.apply_async(run_direct, (task,))))
   work = [(ob, cube) for ob in obligations if ob.kind == 'crosshair' for cube in ob.cubes]
   work.sort(key=lambda oc: -(oc[1].est or 0))   # biggest cubes first
+  # Wall-clock budget (DESIGN 9.7): the thorough families are larger than one sitting; a run explores as many cubes
+  # as fit into VERIF_BUDGET_S (default 2400 s for thorough, none for quick; 0 = no limit), in an order shuffled
+  # by VERIF_SEED, and reports every cube it did not finish as inconclusive (never as success).
+  budget = float(os.environ.get('VERIF_BUDGET_S', '') or (2400 if tier == 'thorough' else 0))
+  deadline = t_start + budget if budget > 0 else None
+  if deadline is not None and tier == 'thorough':
+    import random as _random
+    _random.Random(seed).shuffle(work)
   for ob, cube in work:
     submit_cube(ob, cube)
 
@@ -372,6 +380,18 @@ def run_property(pid, tier, only=None, jobs=None, write_evidence=True, cube_filt
       if done % 10 == 0 or st not in ('confirmed',):
         log(f'[{pid} {done}/{n_expected}+] {ob.name}/{cube.tag}: {st} paths={res.get("paths")} '
             f'{res.get("wall_s")}s twin={tw} {res.get("message", "")[:120]}')
+    if deadline is not None and pending and time.time() > deadline:
+      for ob, cube, gen, ar in pending:
+        tag = getattr(cube, 'tag', ob.name)
+        total['obligations'] += 1
+        total['inconclusive'] += 1
+        total['not_run'] = total.get('not_run', 0) + 1
+        cube_rows.append(dict(harness=ob.name, cube=tag, gen=gen, status='inconclusive(not finished within the time budget)',
+                              paths=0, wall_s=0))
+      log(f'[{pid}] time budget of {int(budget)}s used up: {len(pending)} cubes not finished, reported inconclusive')
+      pending = []
+      stalled = True
+      break
     if progressed:
       last_progress = time.time()
     else:
@@ -413,6 +433,8 @@ def run_property(pid, tier, only=None, jobs=None, write_evidence=True, cube_filt
       discharged=total['discharged'],
       inconclusive=total['inconclusive'],
       cubes_entirely_inside_known_findings=total.get('known_cubes', 0),
+      cubes_not_finished_within_time_budget=total.get('not_run', 0),
+      time_budget_s=budget,
       evaluations=max(total['paths'] + sum(r.get('queries', 0) for r in direct_rows), 0),
       distinct_nontrivial=len(notes_all) + sum(1 for r in direct_rows if r['verdict'] == 'holds'),
       rule=getattr(hmod, 'RULE', 'evaluations = CrossHair path iterations (each decided by z3) plus direct '
